@@ -62,6 +62,233 @@ theorem sNotIs_wf (x y : VarSpec) (hx : x.wf = true) (hy : y.wf = true) :
     comparisonOps, wfLinks, Unary.startsUn, Unary.edgeCall, Primary.edgeCall, Prim.edgeCall, subsEdgeCall,
     Prim.opensAt, OpList.edgeCall, lastEdge, hx, hy]
 
+/-! ### programs whose parse does not depend on the templates
+
+  `Fits` is `True` for statements without the peeking constructs (`plain false`), and follows from
+  `NoIt` (no template is spelled `it`) if bare `break`s are allowed too (`plain true`). -/
+
+/-- no poetic literal, poetic string, `rock … like`, negative poetic right-hand side; bare `break`
+    only if `ab` -/
+def SimpleStmt.plain (ab : Bool) : SimpleStmt N → Bool
+  | .break_ none => ab
+  | .poeticLit _ _ => false
+  | .poeticExpr _ e => e.headUnary.poeticStart != some true
+  | .poeticStr _ _ _ => false
+  | .rockLike _ _ => false
+  | _ => true
+
+mutual
+def Statement.plain (ab : Bool) : Statement N → Bool
+  | .simple s _ => s.plain ab
+  | .ifS _ _ t e =>
+      stmtsPlain ab t &&
+        (match e with
+         | some b => stmtsPlain ab b
+         | none => true)
+  | .whileS _ _ b => stmtsPlain ab b
+  | .untilS _ _ b => stmtsPlain ab b
+  | .func _ _ _ _ b => stmtsPlain ab b
+def stmtsPlain (ab : Bool) : List (Statement N) → Bool
+  | [] => true
+  | s :: ss => s.plain ab && stmtsPlain ab ss
+end
+
+def progPlain (ab : Bool) (bs : List (List (Statement N))) : Bool := bs.all (stmtsPlain ab)
+
+theorem noIt_sub {c : Choices N} (h : c.NoIt) (i : Nat) : (c.sub i).NoIt :=
+  fun q => h (i :: q)
+
+theorem simple_plain_fits {ab : Bool} (src : Str) (s : SimpleStmt N) (c : Choices N) (rest : List (Tok N))
+    (hp : s.plain ab = true) : s.Fits src c rest := by
+  cases s with
+  | poeticExpr t e =>
+    intro h
+    simp [SimpleStmt.plain, h] at hp
+  | poeticStr t text junk => simp [SimpleStmt.plain] at hp
+  | _ => trivial
+
+theorem simple_plain_peek {ab : Bool} (s : SimpleStmt N) (k : TK) (c' : Choices N) (ts : List (Tok N))
+    (hp : s.plain ab = true) (hit : ab = true → c'.NoIt) : s.PeekStop (tk (.kw k) c' :: ts) := by
+  cases s with
+  | break_ it =>
+    cases it with
+    | none =>
+      intro t ht
+      simp only [List.head?_cons, Option.some.injEq] at ht
+      subst ht
+      exact hit (by simpa [SimpleStmt.plain] using hp) []
+    | some it => trivial
+  | poeticLit t lit => simp [SimpleStmt.plain] at hp
+  | rockLike p lit => simp [SimpleStmt.plain] at hp
+  | _ => trivial
+
+theorem stmt_plain_eolOK {ab : Bool} (s : Statement N) (c : Choices N) (hp : s.plain ab = true)
+    (hit : ab = true → c.NoIt) : s.EolOK c := by
+  cases s with
+  | simple s eol =>
+    have hp' : s.plain ab = true := hp
+    show s.PeekStop (eolToks eol c)
+    cases eol with
+    | none => exact simple_plain_peek s .newline (c.sub 1) [] hp' (fun h => noIt_sub (hit h) 1)
+    | dot => exact simple_plain_peek s .dot (c.sub 0) _ hp' (fun h => noIt_sub (hit h) 0)
+    | comma => exact simple_plain_peek s .comma (c.sub 0) _ hp' (fun h => noIt_sub (hit h) 0)
+  | _ => trivial
+
+theorem stmt_plain_eolOKE {ab : Bool} (s : Statement N) (c : Choices N) (hp : s.plain ab = true)
+    (hit : ab = true → c.NoIt) : s.EolOKE c := by
+  cases s with
+  | simple s eol =>
+    have hp' : s.plain ab = true := hp
+    show s.PeekStop (eolPunct eol c)
+    cases eol with
+    | none =>
+      cases s with
+      | break_ it =>
+        cases it with
+        | none => intro t ht; simp [eolPunct] at ht
+        | some it => trivial
+      | poeticLit t lit => simp [SimpleStmt.plain] at hp'
+      | rockLike p lit => simp [SimpleStmt.plain] at hp'
+      | _ => trivial
+    | dot => exact simple_plain_peek s .dot (c.sub 0) _ hp' (fun h => noIt_sub (hit h) 0)
+    | comma => exact simple_plain_peek s .comma (c.sub 0) _ hp' (fun h => noIt_sub (hit h) 0)
+  | _ => trivial
+
+omit [CharOps] in
+theorem ifS_plain (ab : Bool) (cond : Expression N) (eol : Eol) (t : List (Statement N))
+    (e : Option (List (Statement N))) :
+    (Statement.ifS cond eol t e).plain ab = (stmtsPlain ab t &&
+      (match e with
+       | some b => stmtsPlain ab b
+       | none => true)) := by
+  cases e <;> rfl
+
+mutual
+theorem plain_fitsD {ab : Bool} (src : Str) : (s : Statement N) → ∀ (d : Nat) (c : Choices N) (rest : List (Tok N)),
+    s.plain ab = true → (ab = true → c.NoIt) → s.FitsD src d c rest
+  | .simple s eol, d, c, rest, hp, _ => by
+    rw [simple_fitsD]; exact simple_plain_fits src s c rest hp
+  | .ifS cond eol t none, d, c, rest, hp, hit => by
+    rw [ifS_plain] at hp
+    simp only [Bool.and_true] at hp
+    rw [ifS_none_fitsD]
+    exact plain_linesFitD src t d (c.sub 3) hp (fun h => noIt_sub (hit h) 3)
+  | .ifS cond eol t (some b), d, c, rest, hp, hit => by
+    rw [ifS_plain] at hp
+    simp only [Bool.and_eq_true] at hp
+    rw [ifS_some_fitsD]
+    exact ⟨plain_linesFit src t (c.sub 3) hp.1 (fun h => noIt_sub (hit h) 3),
+      plain_linesFitD src b d (c.sub 6) hp.2 (fun h => noIt_sub (hit h) 6)⟩
+  | .whileS cond eol b, d, c, rest, hp, hit => by
+    rw [whileS_fitsD]; exact plain_linesFitD src b d (c.sub 3) hp (fun h => noIt_sub (hit h) 3)
+  | .untilS cond eol b, d, c, rest, hp, hit => by
+    rw [untilS_fitsD]; exact plain_linesFitD src b d (c.sub 3) hp (fun h => noIt_sub (hit h) 3)
+  | .func f p ps eol b, d, c, rest, hp, hit => by
+    rw [func_fitsD]; exact plain_fnLinesFitD src b d (c.sub 5) hp (fun h => noIt_sub (hit h) 5)
+theorem plain_fits {ab : Bool} (src : Str) : (s : Statement N) → ∀ (c : Choices N) (rest : List (Tok N)),
+    s.plain ab = true → (ab = true → c.NoIt) → s.Fits src c rest
+  | .simple s eol, c, rest, hp, _ => simple_plain_fits src s c rest hp
+  | .ifS cond eol t e, c, rest, hp, hit => by
+    rw [ifS_plain] at hp
+    simp only [Bool.and_eq_true] at hp
+    rw [ifS_fits]
+    refine ⟨plain_linesFit src t (c.sub 3) hp.1 (fun h => noIt_sub (hit h) 3), ?_⟩
+    cases e with
+    | none => trivial
+    | some b => exact plain_linesFit src b (c.sub 6) hp.2 (fun h => noIt_sub (hit h) 6)
+  | .whileS cond eol b, c, rest, hp, hit => plain_linesFit src b (c.sub 3) hp (fun h => noIt_sub (hit h) 3)
+  | .untilS cond eol b, c, rest, hp, hit => plain_linesFit src b (c.sub 3) hp (fun h => noIt_sub (hit h) 3)
+  | .func f p ps eol b, c, rest, hp, hit => plain_fnLinesFit src b (c.sub 5) hp (fun h => noIt_sub (hit h) 5)
+theorem plain_linesFit {ab : Bool} (src : Str) : (ls : List (Statement N)) → ∀ (c : Choices N),
+    stmtsPlain ab ls = true → (ab = true → c.NoIt) → linesFit src ls c
+  | [], c, _, _ => trivial
+  | s :: ss, c, hp, hit => by
+    have hp' : (s.plain ab && stmtsPlain ab ss) = true := hp
+    simp only [Bool.and_eq_true] at hp'
+    rw [linesFit_cons]
+    exact ⟨plain_fits src s (c.sub 0) _ hp'.1 (fun h => noIt_sub (hit h) 0),
+      stmt_plain_eolOK s (c.sub 1) hp'.1 (fun h => noIt_sub (hit h) 1),
+      plain_linesFit src ss (c.sub 2) hp'.2 (fun h => noIt_sub (hit h) 2)⟩
+theorem plain_fnLinesFit {ab : Bool} (src : Str) : (ls : List (Statement N)) → ∀ (c : Choices N),
+    stmtsPlain ab ls = true → (ab = true → c.NoIt) → fnLinesFit src ls c
+  | [], c, _, _ => trivial
+  | s :: ss, c, hp, hit => by
+    have hp' : (s.plain ab && stmtsPlain ab ss) = true := hp
+    simp only [Bool.and_eq_true] at hp'
+    rw [fnLinesFit_cons]
+    refine ⟨?_, plain_fnLinesFit src ss (c.sub 2) hp'.2 (fun h => noIt_sub (hit h) 2)⟩
+    split
+    · exact plain_fits src s (c.sub 0) _ hp'.1 (fun h => noIt_sub (hit h) 0)
+    · exact ⟨plain_fits src s (c.sub 0) _ hp'.1 (fun h => noIt_sub (hit h) 0),
+        stmt_plain_eolOK s (c.sub 1) hp'.1 (fun h => noIt_sub (hit h) 1)⟩
+theorem plain_linesFitD {ab : Bool} (src : Str) : (ls : List (Statement N)) → ∀ (d : Nat) (c : Choices N),
+    stmtsPlain ab ls = true → (ab = true → c.NoIt) → linesFitD src d ls c
+  | [], d, c, _, _ => by cases d <;> trivial
+  | [s], 0, c, hp, hit => by
+    have hp' : (s.plain ab && stmtsPlain ab []) = true := hp
+    simp only [Bool.and_eq_true] at hp'
+    rw [linesFitD_one_zero]
+    exact ⟨plain_fits src s (c.sub 0) _ hp'.1 (fun h => noIt_sub (hit h) 0),
+      stmt_plain_eolOK s (c.sub 1) hp'.1 (fun h => noIt_sub (hit h) 1)⟩
+  | [s], d + 1, c, hp, hit => by
+    have hp' : (s.plain ab && stmtsPlain ab []) = true := hp
+    simp only [Bool.and_eq_true] at hp'
+    rw [linesFitD_one_succ]
+    exact ⟨plain_fitsD src s d (c.sub 0) _ hp'.1 (fun h => noIt_sub (hit h) 0),
+      stmt_plain_eolOKE s (c.sub 1) hp'.1 (fun h => noIt_sub (hit h) 1)⟩
+  | s :: s' :: ss, d, c, hp, hit => by
+    have hp' : (s.plain ab && stmtsPlain ab (s' :: ss)) = true := hp
+    simp only [Bool.and_eq_true] at hp'
+    rw [linesFitD_cons]
+    exact ⟨plain_fits src s (c.sub 0) _ hp'.1 (fun h => noIt_sub (hit h) 0),
+      stmt_plain_eolOK s (c.sub 1) hp'.1 (fun h => noIt_sub (hit h) 1),
+      plain_linesFitD src (s' :: ss) d (c.sub 2) hp'.2 (fun h => noIt_sub (hit h) 2)⟩
+theorem plain_fnLinesFitD {ab : Bool} (src : Str) : (ls : List (Statement N)) → ∀ (d : Nat) (c : Choices N),
+    stmtsPlain ab ls = true → (ab = true → c.NoIt) → fnLinesFitD src d ls c
+  | [], d, c, _, _ => by cases d <;> trivial
+  | [s], d, c, hp, hit => by
+    have hp' : (s.plain ab && stmtsPlain ab []) = true := hp
+    simp only [Bool.and_eq_true] at hp'
+    rw [fnLinesFitD_one]
+    split
+    · exact plain_fitsD src s d (c.sub 0) _ hp'.1 (fun h => noIt_sub (hit h) 0)
+    · exact plain_linesFitD src [s] d c hp hit
+  | s :: s' :: ss, d, c, hp, hit => by
+    have hp' : (s.plain ab && stmtsPlain ab (s' :: ss)) = true := hp
+    simp only [Bool.and_eq_true] at hp'
+    rw [fnLinesFitD_cons]
+    exact ⟨plain_fits src s (c.sub 0) _ hp'.1 (fun h => noIt_sub (hit h) 0),
+      stmt_plain_eolOK s (c.sub 1) hp'.1 (fun h => noIt_sub (hit h) 1),
+      plain_fnLinesFitD src (s' :: ss) d (c.sub 2) hp'.2 (fun h => noIt_sub (hit h) 2)⟩
+end
+
+theorem plain_progFits {ab : Bool} (src : Str) : ∀ (bs : List (List (Statement N))) (c : Choices N),
+    progPlain ab bs = true → (ab = true → c.NoIt) → progFits src bs c
+  | [], c, _, _ => trivial
+  | b :: bs, c, hp, hit => by
+    simp only [progPlain, List.all_cons, Bool.and_eq_true] at hp
+    exact ⟨plain_linesFit src b (c.sub 1) hp.1 (fun h => noIt_sub (hit h) 1),
+      plain_progFits src bs (c.sub 3) (by simpa [progPlain] using hp.2) (fun h => noIt_sub (hit h) 3)⟩
+
+theorem plain_progFitsD {ab : Bool} (src : Str) (d : Nat) : ∀ (bs : List (List (Statement N))) (c : Choices N),
+    progPlain ab bs = true → (ab = true → c.NoIt) → progFitsD src d bs c
+  | [], c, _, _ => trivial
+  | [b], c, hp, hit => by
+    simp only [progPlain, List.all_cons, Bool.and_eq_true] at hp
+    exact plain_linesFitD src b d (c.sub 1) hp.1 (fun h => noIt_sub (hit h) 1)
+  | b :: b' :: bs, c, hp, hit => by
+    simp only [progPlain, List.all_cons, Bool.and_eq_true] at hp
+    exact ⟨plain_linesFit src b (c.sub 1) hp.1 (fun h => noIt_sub (hit h) 1),
+      plain_progFitsD src d (b' :: bs) (c.sub 3) (by simpa [progPlain] using hp.2) (fun h => noIt_sub (hit h) 3)⟩
+
+theorem plain_progFitsE {ab : Bool} (src : Str) (bs : List (List (Statement N))) (c : Choices N)
+    (hp : progPlain ab bs = true) (hit : ab = true → c.NoIt) : progFitsE src bs c :=
+  plain_progFitsD src _ bs c hp hit
+
+theorem plain_fitsE {ab : Bool} (src : Str) (s : Statement N) (c : Choices N)
+    (hp : s.plain ab = true) (hit : ab = true → c.NoIt) : s.FitsE src c :=
+  plain_fitsD src s _ c [] hp hit
+
 end
 
 /-! ### for the examples: ASCII characters, integer numbers -/
@@ -130,6 +357,116 @@ def progEx : List (List (Statement Int)) :=
   [[.ifS xE .none [sayS 1 .dot] (some [sayS 2 .none]), sayS 3 .comma], [funEx]]
 /-- `a with b times x, and y` … -/
 def eEx : Expression Int := sListNearest (va (str% "a")) (va (str% "b")) (va (str% "x")) (va (str% "y"))
+
+/-! #### poetic statements -/
+
+/-- the target `x` -/
+def xT : Target Int := ⟨.var (va (str% "x")), []⟩
+/-- the target `Tommy` -/
+def tommyT : Target Int := ⟨.var (va (str% "Tommy")), []⟩
+/-- `a lovestruck ladykiller` -/
+def tommyLit : List PoeticItem :=
+  [.word (str% "a") .commonPrefix, .word (str% "lovestruck") .word, .word (str% "ladykiller") .word]
+/-- `Tommy was a lovestruck ladykiller` -/
+def tommyS : SimpleStmt Int := .poeticLit tommyT tommyLit
+/-- `x says hello world` -/
+def saysS : SimpleStmt Int := .poeticStr xT (str% "hello world") [.word, .word]
+/-- the primary expression `x` -/
+def xP : Grammar.Primary Int := .mk (.var (va (str% "x"))) []
+/-- `a rolling stone` -/
+def stoneLit : List PoeticItem :=
+  [.word (str% "a") .commonPrefix, .word (str% "rolling") .word, .word (str% "stone") .word]
+/-- `rock x like a rolling stone` -/
+def rockS : SimpleStmt Int := .rockLike xP stoneLit
+/-- the expression `-5` -/
+def minusFive : Expression Int :=
+  Comparison.toLogical (Term.toComparison (Factor.toTerm (Unary.toFactor (.mk [.minus] (.mk (.lit (.num 5)) [])))))
+/-- `x is -5` -/
+def negS : SimpleStmt Int := .poeticExpr xT minusFive
+
+/-- the source text of `saysS` alone -/
+def saysSrc : Str := str% "x says hello world"
+/-- choices for `saysS` alone: the `says` token starts at byte 2 and is spelled `says` -/
+def cSays : Choices Int :=
+  ⟨fun _ => 0, fun p => if p = [1] then { (k .error : Tok Int) with spelling := str% "says", start := 2 } else k .error⟩
+/-- choices in which every template is spelled `-` (for `x is -5`) -/
+def cHy : Choices Int := ⟨fun _ => 0, fun _ => { (k .error : Tok Int) with spelling := ['-'] }⟩
+
+theorem snapOK_default (src : Str) : SnapOK src ⟨1, 0, 0⟩ := ⟨Nat.zero_le _, Nat.le_refl _⟩
+
+theorem cSays_sane : cSays.Sane saysSrc := fun p => by
+  show SnapOK saysSrc (if p = [1] then _ else _ : Tok Int).after
+  split <;> exact snapOK_default _
+theorem cHy_sane : cHy.Sane [] := fun _ => snapOK_default _
+
+/-- a block with all of them, and a bare `break`:
+    `Tommy was a lovestruck ladykiller / x says hello world / rock x like a rolling stone / x is -5 / break` -/
+def poeticProg : List (List (Statement Int)) :=
+  [[.simple tommyS .none, .simple saysS .none, .simple rockS .none, .simple negS .none,
+    .simple (.break_ none) .none]]
+/-- its source text -/
+def poeticSrc : Str :=
+  str% "Tommy was a lovestruck ladykiller\nx says hello world\nrock x like a rolling stone\nx is -5\nbreak\n"
+/-- choices for it: the `says` token (byte 36, spelled `says`), the `Newline` after its line (byte 52),
+    the hyphen of `-5` (spelled `-`); everything else as in `c0` -/
+def cPoetic : Choices Int :=
+  ⟨fun _ => 0, fun p =>
+    if p = [1, 2, 0, 1] then { (k .error : Tok Int) with spelling := str% "says", start := 36 }
+    else if p = [1, 2, 1, 1] then { (k .error : Tok Int) with start := 52 }
+    else if p = [1, 2, 2, 2, 0, 2, 0, 0, 0, 0, 0, 0] then { (k .error : Tok Int) with spelling := ['-'] }
+    else k .error⟩
+
+theorem cPoetic_sane : cPoetic.Sane poeticSrc := fun p => by
+  show SnapOK poeticSrc (if p = [1, 2, 0, 1] then _ else if p = [1, 2, 1, 1] then _
+    else if p = [1, 2, 2, 2, 0, 2, 0, 0, 0, 0, 0, 0] then _ else _ : Tok Int).after
+  split
+  · exact snapOK_default _
+  · split
+    · exact snapOK_default _
+    · split <;> exact snapOK_default _
+
+/-- a one-line statement without subscripts whose end-of-line template is harmless -/
+theorem peek_k (s : SimpleStmt Int) (c : Choices Int) (h : (c.sub 1).here = k .error) :
+    (Statement.simple s .none).EolOK c := by
+  show s.PeekStop [tk (.kw .newline) (c.sub 1)]
+  have hsp : (tk (.kw .newline) (c.sub 1) : Tok Int).spelling = [] := by
+    rw [tk_kw_spelling, h]; rfl
+  have hkd : (tk (.kw .newline) (c.sub 1) : Tok Int).kind = .newline := rfl
+  cases s with
+  | break_ it =>
+    cases it with
+    | none =>
+      intro t ht
+      simp only [List.head?_cons, Option.some.injEq] at ht
+      subst ht
+      rw [hsp]; decide
+    | some it => trivial
+  | poeticLit t lit =>
+    intro t ht
+    simp only [List.head?_cons, Option.some.injEq] at ht
+    subst ht
+    simp only [continuesPoetic, hsp, hkd]
+    decide
+  | rockLike p lit =>
+    intro t ht
+    simp only [List.head?_cons, Option.some.injEq] at ht
+    subst ht
+    simp only [continuesPoetic, hsp, hkd]
+    decide
+  | _ => trivial
+
+theorem poeticProg_fits : progFits poeticSrc poeticProg cPoetic := by
+  refine ⟨⟨trivial, peek_k _ _ rfl, ⟨?_, trivial, ⟨trivial, peek_k _ _ rfl, ⟨?_, trivial,
+    ⟨trivial, peek_k _ _ rfl, trivial⟩⟩⟩⟩⟩, trivial⟩
+  · show lineText poeticSrc 36 [_] = some _
+    decide +kernel
+  · intro _ t ht
+    have : t = tk (.kw .minus) (cPoetic.sub 1 |>.sub 2 |>.sub 2 |>.sub 2 |>.sub 0 |>.sub 2 |>.sub 0 |>.sub 0
+        |>.sub 0 |>.sub 0 |>.sub 0 |>.sub 0) := by
+      simpa [unparse, logicalSyn, comparisonSyn, termSyn, factorSyn, unarySyn, spineSyn, minusFive,
+        Comparison.toLogical, Term.toComparison, Factor.toTerm, Unary.toFactor, Unary.toks, unopsToks,
+        unopKind, opsToks] using ht.symm
+    rw [this]; rfl
 
 end Ex
 
